@@ -82,11 +82,13 @@ func (s *grpcServer) Initialize(
 			s.logUnary,
 			grpc_prometheus.UnaryServerInterceptor,
 			UnaryFaultInjector(s.faults),
+			recoverUnary,
 		),
 		grpc.ChainStreamInterceptor(
 			s.logStream,
 			grpc_prometheus.StreamServerInterceptor,
 			StreamFaultInjector(s.faults),
+			recoverStream,
 		),
 		grpc.KeepaliveEnforcementPolicy(keepalive.EnforcementPolicy{
 			// be tolerant of aggressive client keepalives
@@ -116,6 +118,37 @@ func (s *grpcServer) Initialize(
 	reflection.Register(s.server)
 
 	return nil
+}
+
+// recoverUnary answers a request whose handler panicked with an Internal status,
+// instead of letting the panic take down the whole server process
+func recoverUnary(
+	ctx context.Context,
+	req interface{},
+	info *grpc.UnaryServerInfo,
+	handler grpc.UnaryHandler,
+) (resp interface{}, err error) {
+	defer func() {
+		if r := recover(); r != nil {
+			resp, err = nil, status.Errorf(codes.Internal, "panic in %s: %v", info.FullMethod, r)
+		}
+	}()
+	return handler(ctx, req)
+}
+
+// recoverStream is the streaming counterpart of recoverUnary
+func recoverStream(
+	srv interface{},
+	ss grpc.ServerStream,
+	info *grpc.StreamServerInfo,
+	handler grpc.StreamHandler,
+) (err error) {
+	defer func() {
+		if r := recover(); r != nil {
+			err = status.Errorf(codes.Internal, "panic in %s: %v", info.FullMethod, r)
+		}
+	}()
+	return handler(srv, ss)
 }
 
 func (s *grpcServer) logUnary(
